@@ -190,7 +190,9 @@ func runPlainHTTP(sc *Scenario, ev *env) (obs Obs, vs []verdict, err error) {
 
 	// ---- oracle (from the statement) ----
 	if sc.Fail != "" {
-		if obs.Reply != "fail:502" {
+		// a non-CONNECT request has no success reply of its own: when the relay had to proceed first in order to collect the
+		// initial payload (the exemption of the statement) the failure can only show as a closed connection
+		if obs.Reply != "fail:502" && !(mayWaitFirst(sc) && obs.Reply == "none") {
 			add("reply-mismatch:"+sc.Fail, "reply %s for a request whose onward connection failed, want 502", obs.Reply)
 		}
 		if obs.Dialed {
